@@ -1,4 +1,6 @@
 """C09 Cancellation stops the stream at both ends."""
+import asyncio
+
 from .. import assert_repo
 from ..links import ANY_LINK
 
@@ -27,7 +29,7 @@ TERMINALS = ('on_complete', 'on_next_complete', 'on_error')
 def plan(tier, seed):
     from . import c07
     return [('cancel', 5000 if tier == 'quick' else 60000), ('raw-cancel', 2500 if tier == 'quick' else 40000),
-            ('script', len(c07.script_cases(tier)))]
+            ('script', len(c07.script_cases(tier))), ('routed-cancel', 300 if tier == 'quick' else 4000)]
 
 
 def gen_case(rng, tier):
@@ -217,6 +219,8 @@ def run_case(gen, idx, rng, tier):
         return run_script(idx, rng, tier)
     if gen == 'raw-cancel':
         return run_raw_cancel(idx, rng, tier)
+    if gen == 'routed-cancel':
+        return run_routed_cancel(idx, rng, tier)
     from .. import vloop, mixgen
     from ..runner import short_hash
     from ..pair import trace_excerpt
@@ -496,6 +500,173 @@ def run_script(idx, rng, tier):
             'counts': {'histories_%s_%s' % (m, r): len(hs)},
             'sample': {'model': m, 'role_of_real_endpoint': r, 'endpoint': e, 'spacing': sp,
                        'first_history': list(hs[0]), 'last_history': list(hs[-1]), 'histories': len(hs)}}
+
+
+# ---------------------------------------------------------------------------
+# cancellation of requests served through the router (rsocket/routing): what a route returns - a future or
+# task for a response, a publisher for a stream / channel - is what "was producing the response"
+
+
+async def _routed_cancel(rng, d):
+    from datetime import timedelta
+    from rsocket.payload import Payload
+    from rsocket.rsocket_server import RSocketServer
+    from rsocket.rsocket_client import RSocketClient
+    from rsocket.routing.request_router import RequestRouter
+    from rsocket.routing.routing_request_handler import RoutingRequestHandler
+    from rsocket.extensions.mimetypes import WellKnownMimeTypes
+    from rsocket.extensions.helpers import composite, route as mk_route
+    from rsocket.streams.stream_from_async_generator import StreamFromAsyncGenerator
+    from reactivestreams.subscriber import DefaultSubscriber
+    from .. import links
+    router = RequestRouter()
+    made = {}         # name -> the future / task the route returned, or the state of its publisher
+    loop = asyncio.get_event_loop()
+
+    def slow_result(name):
+        async def work():
+            try:
+                await asyncio.sleep(d['work'])
+                made[name]['finished'] = True
+                return Payload(b'late-' + name.encode())
+            except asyncio.CancelledError:
+                made[name]['cancelled_inside'] = True
+                raise
+        return work
+
+    @router.response('task')
+    async def r_task(payload):
+        t = asyncio.ensure_future(slow_result('task')())
+        made['task'] = {'future': t}
+        return t
+
+    @router.response('future')
+    async def r_future(payload):
+        f = loop.create_future()
+        made['future'] = {'future': f}
+        loop.call_later(d['work'], lambda: f.done() or (made['future'].__setitem__('finished', True), f.set_result(Payload(b'late-future'))))
+        return f
+
+    @router.response('other')
+    async def r_other(payload):
+        t = asyncio.ensure_future(slow_result('other')())
+        made['other'] = {'future': t}
+        return t
+
+    @router.response('quick')
+    async def r_quick(payload):
+        f = loop.create_future()
+        f.set_result(Payload(b'quick-answer'))
+        return f
+
+    @router.stream('stream')
+    async def r_stream(payload):
+        st = made['stream'] = {'produced': 0}
+
+        async def gen():
+            try:
+                i = 0
+                while True:
+                    await asyncio.sleep(d['work'] / 4)
+                    st['produced'] += 1
+                    yield Payload(b'e%d' % i), False
+                    i += 1
+            finally:
+                st['generator_closed'] = True
+        return StreamFromAsyncGenerator(gen, on_cancel=lambda: st.__setitem__('on_cancel', True))
+
+    link = links.make_link(d['link'], rng)
+    server = RSocketServer(link.transports['s'], handler_factory=lambda: RoutingRequestHandler(router))
+
+    async def provider():
+        yield link.transports['c']
+
+    client = RSocketClient(provider(), metadata_encoding=WellKnownMimeTypes.MESSAGE_RSOCKET_COMPOSITE_METADATA,
+                           keep_alive_period=timedelta(seconds=1e6), max_lifetime_period=timedelta(seconds=2e6))
+    await client.connect()
+    target = d['target']
+    obs = {'target': target}
+    other = client.request_response(Payload(b'o', composite(mk_route('other'))))
+    got = []
+    if target in ('task', 'future'):
+        fut = client.request_response(Payload(b'x', composite(mk_route(target))))
+        await asyncio.sleep(d['cancel_after'])
+        fut.cancel()
+    else:
+        class Sub(DefaultSubscriber):
+            def on_subscribe(self, subscription):
+                self.subscription = subscription
+                subscription.request(d['n'])
+
+            def on_next(self, value, is_complete=False):
+                got.append(bytes(value.data or b''))
+        sub = Sub()
+        client.request_stream(Payload(b'x', composite(mk_route('stream')))).initial_request_n(d['n']).subscribe(sub)
+        await asyncio.sleep(d['cancel_after'])
+        sub.subscription.cancel()
+    await asyncio.sleep(0.05)
+    cancels = [e[3] for e in link.tap.events if e[1] == 'c' and e[2] == 'send' and e[3]['type'] == 'CANCEL']
+    obs['cancel_frames'] = [c['sid'] for c in cancels]
+    m = made.get(target)
+    obs['handler_ran'] = m is not None
+    produced_at_cancel = m.get('produced') if m else None
+    await asyncio.sleep(d['work'] * 3 + 1.0)
+    if m is not None:
+        if 'future' in m:
+            obs['producer_cancelled'] = m['future'].cancelled()
+            obs['producer_finished'] = bool(m.get('finished'))
+        else:
+            obs['producer_cancelled'] = bool(m.get('on_cancel')) or bool(m.get('generator_closed'))
+            obs['produced_after_cancel'] = m['produced'] - produced_at_cancel
+    # the other routed request and a later one are undisturbed
+    try:
+        r = await asyncio.wait_for(other, d['work'] * 3 + 5)
+        obs['other'] = bytes(r.data or b'')
+    except Exception as e:
+        obs['other'] = repr(e)
+    try:
+        r = await asyncio.wait_for(client.request_response(Payload(b'q', composite(mk_route('quick')))), 5)
+        obs['later'] = bytes(r.data or b'')
+    except Exception as e:
+        obs['later'] = repr(e)
+    try:
+        await client.close()
+        await server.close()
+    except Exception:
+        pass
+    link.stop()
+    return obs
+
+
+def run_routed_cancel(idx, rng, tier):
+    from .. import vloop
+    from ..runner import short_hash
+    d = {'target': ('task', 'future', 'stream')[idx % 3], 'link': rng.choice(ANY_LINK),
+         'work': rng.choice([0.5, 2.0, 10.0]), 'cancel_after': rng.choice([0.01, 0.1, 0.3]), 'n': rng.choice([1, 3, 100])}
+    obs = vloop.run(_routed_cancel(rng, d))
+    wit = []
+    st = {'routed_cancels_judged': 0}
+
+    def bad(clause, **kw):
+        wit.append({'clause': clause, 'detail': dict(kw, case=d, observed=obs)})
+
+    if not obs['handler_ran']:
+        return {'inconclusive': 'routed handler never ran'}
+    st['routed_cancels_judged'] = 1
+    if len(obs['cancel_frames']) != 1:
+        bad('not-exactly-one-cancel-frame', frames=obs['cancel_frames'])
+    if not obs.get('producer_cancelled'):
+        bad('routed-producer-not-cancelled-by-cancel')
+    if obs.get('producer_finished'):
+        bad('routed-producer-ran-to-the-end-after-cancel')
+    if obs.get('produced_after_cancel', 0) > 1:
+        bad('routed-publisher-kept-producing-after-cancel', produced_after=obs['produced_after_cancel'])
+    if obs['other'] != b'late-other':
+        bad('other-stream-disturbed-by-cancel', got=str(obs['other'])[:80])
+    if obs['later'] != b'quick-answer':
+        bad('later-request-disturbed-by-cancel', got=str(obs['later'])[:80])
+    return {'evals': 1, 'nt_keys': [short_hash(d)], 'deciding': st, 'witnesses': wit[:3], 'sample': d,
+            'counts': {'routed_cancel_' + d['target']: 1}}
 
 
 def classify(w):
